@@ -205,6 +205,45 @@ def _std_record(gene, contig, p, op, rng):
     return None
 
 
+def gen_aldy_sam_Sample__load_vcf_get_mut(rng, ctx):
+    """(pos, ref, alt) of one VCF allele + the closure variable `self`: standard records of catalogued variants,
+    random substitutions / deletions / insertions with a common prefix of 0-3 bases, REF that differs from the
+    RefSeq-derived reference, and other shapes (identical alleles, MNP, complex, empty ALT)"""
+    gene = pick_gene(rng, ctx, VCF_GENES)
+    s = bare_sample(ctx, gene, plain_profile(rng, ctx))
+    lo, hi = gene._lookup_range
+    r = rng.random()
+    if r < 0.3 and gene.mutations:
+        p, op = rng.choice(sorted(gene.mutations))
+        rec = _std_record(gene, gene.chr, p, op, rng)
+        if rec is not None:
+            return {"pos": rec["pos"] - 1, "ref": rec["ref"], "alt": rec["alts"][0], "self": s}
+    pos = rng.choice([lo - 2, lo, hi - 1, hi - 3, rng.randint(lo, hi - 1), rng.randint(lo, hi - 1)])
+    k = rng.choice([0, 0, 1, 1, 2, 3])
+    pre = gene[pos:pos + k]
+    base = gene[pos + k]
+    other = rng.choice([b for b in "ACGT" if b != base])
+    x = rng.random()
+    if x < 0.25:      # substitution (sometimes with a REF that is not the RefSeq-derived base)
+        ref_b = base if rng.random() < 0.7 else other
+        alt_b = rng.choice([b for b in "ACGT" if b != ref_b])
+        ref, alt = pre + ref_b, pre + alt_b
+    elif x < 0.45:    # deletion
+        d = rng.choice([1, 2, 5])
+        ref, alt = pre + gene[pos + k:pos + k + d], pre
+    elif x < 0.65:    # insertion
+        ref, alt = pre, pre + "".join(rng.choice("ACGT") for _ in range(rng.choice([1, 2, 4])))
+    elif x < 0.75:    # identical alleles
+        ref = alt = pre + base
+    elif x < 0.85:    # MNP
+        ref = pre + gene[pos + k:pos + k + 3]
+        alt = pre + other + gene[pos + k + 1] + rng.choice("ACGT")
+    else:             # complex / symbolic
+        ref = pre + gene[pos + k:pos + k + rng.choice([1, 2, 3])]
+        alt = rng.choice(["", "<DEL>", other + "TT", pre + other + "G", "*"])
+    return {"pos": pos, "ref": ref, "alt": alt, "self": s}
+
+
 def gen_aldy_sam_Sample__load_vcf(rng, ctx):
     gene = pick_gene(rng, ctx, VCF_GENES)
     prefix, contigs = _contigs(rng, [gene.chr, "21"])
